@@ -117,7 +117,7 @@ func load(patterns ...string) *loaded {
 		gcp = v
 	}
 	debug.SetGCPercent(gcp)
-	debug.SetMemoryLimit(40 << 30)
+	debug.SetMemoryLimit(24 << 30)
 	if os.Getenv("SYMGO_MEM") != "" {
 		var ms runtime.MemStats
 		runtime.ReadMemStats(&ms)
@@ -168,6 +168,21 @@ func main() {
 			if v, err := strconv.ParseInt(s, 10, 64); err == nil {
 				seed = v
 			}
+		}
+		if hp := os.Getenv("SYMGO_HEAPPROFILE"); hp != "" {
+			go func() {
+				for {
+					time.Sleep(30 * time.Second)
+					runtime.GC()
+					var ms runtime.MemStats
+					runtime.ReadMemStats(&ms)
+					fmt.Fprintf(os.Stderr, "HEAP live=%dMB sys=%dMB\n", ms.HeapAlloc>>20, ms.Sys>>20)
+					if f, err := os.Create(hp); err == nil {
+						pprof.WriteHeapProfile(f)
+						f.Close()
+					}
+				}
+			}()
 		}
 		code := check(fs.Arg(0), fs.Arg(1), seed, *workers, *verbose, *only, *noNative, *argsOverride)
 		pprof.StopCPUProfile()
